@@ -9,7 +9,9 @@
 * failing PDFs: garbage (fails before the patch section) and a page whose font resource is not a
   font so that page.extract_text raises inside the patch section (both attempts).
 * AES PDFs: written with pypdf itself in a throw-away subprocess (the writer needs the library's
-  AES fallback patch, which must not contaminate the process under test).
+  AES fallback patch, which must not contaminate the process under test).  The patch trigger is an
+  AES-256 document of revision 5 (PdfReader() already needs AES for the key); revision 6 triggers it too,
+  but its password hash costs ~4 s of pure-Python AES per open.
 """
 from __future__ import annotations
 
@@ -125,7 +127,7 @@ if providers.crypt_provider[0] != "local_crypt_fallback":
     print("NOFALLBACK"); sys.exit(0)
 assert patch_pypdf_fallback_aes()
 src, out = sys.argv[1], sys.argv[2]
-for alg, name in (("AES-128", "aes128"), ("AES-256", "aes256")):
+for alg, name in (("AES-128", "aes128"), ("AES-256-R5", "aes256")):
     w = PdfWriter(); w.add_page(PdfReader(src).pages[0])
     w.encrypt(user_password="", owner_password="owner", algorithm=alg)
     with open(f"{out}/{name}.pdf", "wb") as f: w.write(f)
